@@ -32,6 +32,8 @@ func c03(c *Ctx) {
 	sState(c, "R8/S-STATE")
 	c10R5(c, "R9/C10.R5")
 	coreCommitBundle(c, "R10", "S-MATCH", "C05.R3")
+	sLockDiscipline(c, "R11/S-LOCK", "raftState", "commitment")
+	sAtomicOnly(c, "R11/S-ATOMIC")
 }
 
 // truncationTracks are the per-iteration tracks of appendEntries' entry loop.
